@@ -23,7 +23,7 @@ LIST_PROPS = {
     'C15': dict(kinds=['raw'], flags=[]),
     # panic injection at every call into user code (Hash, Eq, Clone, Drop, hasher, callback, KeyHasher)
     'C18': dict(kinds=ALL_KINDS, flags=['--faults', '--tok', '--audit', '--quarantine', '--drop', '--no-ro'], no_random_only=True,
-                quick_max_states=40, level='fault_enumeration', no_random=True),
+                quick_max_states=40, level='fault_enumeration', no_random=True, fault_big=True),
     # clone in every reachable state, under hashers that change the hash-map iteration order
     'C16': dict(kinds=['raw', 'slru', 'wtlfu'], flags=['--clone', '--no-ro'],
                 variants=[('tracked', 'std'), ('tracked', 'zero'), ('tracked', 'ident')], quick_max_states=1500),
@@ -215,6 +215,12 @@ def run_list_prop(prop, tier, seed, only_kinds=None, harness_variant='std', coll
                 for ro in RANDOM_ONLY[tier]:
                     if ro['kind'] in kinds:
                         jobs.append(dict(kind=ro['kind'], inst=ro, variant=variant, random_only=True))
+        if spec.get('fault_big') and not inst_limit:
+            # panic injection in LARGE states: the state is reached by a seeded random history (it is the path), see exec.rs
+            from instances import FAULT_BIG
+            for ro in FAULT_BIG[tier]:
+                if ro['kind'] in kinds:
+                    jobs.append(dict(kind=ro['kind'], inst=ro, variant=('tracked', 'std'), random_only=True))
         flags = spec['flags']
         log('[%s] %d jobs, tier %s' % (prop, len(jobs), tier))
         # (D) unbounded step: Apalache proves the numeric bounds inductive on the length abstractions (all sizes)
@@ -542,13 +548,20 @@ def run_c17(tier, seed, replay=None):
             insts = insts[:2] if tier == 'quick' else insts
             for inst in insts:
                 jobs.append(dict(kind=kind, inst=inst, variant=('tracked', 'std')))
+        # larger scopes: the same seeded random histories (no closure) under every hasher of the pairs
+        big = [ro for ro in RANDOM_ONLY[tier] if max(ro['cfg'].values()) >= 16]
+        for ro in (big[::2] if tier == 'quick' else big):
+            jobs.append(dict(kind=ro['kind'], inst=ro, variant=('tracked', 'std'), random_only=True))
         runs = sorted({(h, 0) for p in C17_PAIRS for h in p[:2]} | {(p[1], p[2]) for p in C17_PAIRS})
 
         def gen(job):
             kd = KINDS[job['kind']]
             inst = job['inst']
             job['tag'] = inst['name']
-            drv, st = vlib.tlc_model_check(kd['mc'], inst['mc'], work.dir, inst['name'] + '-mc', emit=True)
+            if job.get('random_only'):
+                drv, st = vlib.tlc_ops_only(kd['mc'], inst['mc'], work.dir, inst['name'] + '-ops'), None
+            else:
+                drv, st = vlib.tlc_model_check(kd['mc'], inst['mc'], work.dir, inst['name'] + '-mc', emit=True)
             job['tlc'], job['driver'], job['runs'] = st, drv, {}
             modes = [('', [])]
             if job['kind'] in ('raw', 'slru', 'wtlfu'):
@@ -560,13 +573,15 @@ def run_c17(tier, seed, replay=None):
                 ms = inst.get('max_states')
                 if tier == 'quick':
                     ms = min(ms or 10**9, 1200)
-                if ms:
+                if job.get('random_only'):
+                    extra += ['--max-states', '0']
+                elif ms:
                     extra += ['--max-states', str(ms)]
                 if inst.get('random'):
                     extra += ['--random', '%d,%d,%d' % (inst['random'][0], inst['random'][1], seed + 1)]
                 if shuffle:
                     extra += ['--shuffle', str(shuffle)]
-                if mname and tier == 'quick':
+                if mname and tier == 'quick' and not job.get('random_only'):
                     extra += ['--max-states', '400']       # (a later --max-states overrides an earlier one)
                 prefix = work.path('%s.%s%d%s.trace' % (inst['name'], h, shuffle, mname))
                 r = vlib.harness_exec(binary, job['kind'], inst['cfg'], inst['keys'], drv, prefix, flags=[], extra=extra, shard=15000)
